@@ -328,8 +328,23 @@ def run_check(prop, mod, tier, seed):
                 for i, r in zip(ask, run_model([mod.model_case(cases[i]) for i in ask])): model_obs[i] = r
             except (DriverError, Infra):
                 pass
+        retried = 0
         for i in hung:
             if True:
+                if retried < 12:
+                    # a loaded machine can make a long case miss the per-case limit: before a hang is reported the case is run once more, alone, with four times the limit
+                    retried += 1
+                    signal.setitimer(signal.ITIMER_REAL, 4 * CASE_TIMEOUT)
+                    try:
+                        o2 = mod.run_impl(cases[i]); signal.setitimer(signal.ITIMER_REAL, 0)
+                        v2 = mod.monitor(cases[i], o2)
+                        results[i] = (o2, v2)
+                        if v2 is not None and not (hasattr(mod, "classify") and mod.classify(cases[i], o2, v2, model_obs[i]) is not None): failing.append((i, v2))
+                        continue
+                    except BaseException:
+                        pass
+                    finally:
+                        signal.setitimer(signal.ITIMER_REAL, 0)
                 m = model_obs[i]
                 finishes = (m is None and mod.model_case(cases[i]) is None) or (isinstance(m, dict) and (m.get("outcome") or ["?"])[0] not in ("fuel", "livelock"))
                 if finishes:
